@@ -9,6 +9,8 @@ Driver for C13 (stream `script`). Times are microseconds since the start of the 
   remove <start> <end> <ok> <name8>      lock file removed by the holder
   list <t> <ok> <names>
   freeze <t> | unfreeze <t> <ctxCancelled 0/1>
+  write <t> <ctxCancelled 0/1> <name8>   a snapshot upload (issued with the lock context while the backend was frozen) reaches the storage
+  write-ret <t> nil|ctx|err <name8>      … and how the upload call returned
   acq <t> | cancel <t> | removed-by-other <t> <name8> | unlock-call <t> <ctxCancelled> | unlock-ret <t> <ctxCancelled>
   files-left <n> | log <hex>
 The driver evaluates the property on these observations (age of the newest lock file while the
@@ -151,6 +153,14 @@ def handleC13 (c : Case) : Verdict :=
         (if acc.ages.any (fun a => a + 2 * eps > stale) then
           acc.bad "C13:active-with-stale-lock" s!"kind={kind} staleTimeout={stale} eps={eps} ages={acc.ages.reverse}" else acc.label "within-margin-assumption")
       else acc
+    -- no repository modification reaches the storage after the lock context was cancelled: an upload
+    -- parked at the freeze gate during a failed forced refresh must be refused when it is released
+    let writes := c.findAll "write"
+    let acc := match writes.find? (fun r => r.getD 2 "0" == "1") with
+      | some r => acc.bad "C13:write-after-lock-lost" s!"kind={kind} snapshot {r.getD 3 "?"} was written at {r.getD 1 "?"}us although the lock context was cancelled (failed forced refresh)"
+      | none => acc
+    let acc := if pr.getD 6 "0" == "1" then acc.label "write-issued-while-frozen" else acc
+    let acc := (c.findAll "write-ret").foldl (fun a r => a.label s!"parked-write-{r.getD 2 "?"}") acc
     -- the timing part of the property on the observed ages
     let acc := if !agesOK bound acc.ages then
         acc.bad "C13:active-with-overage-lock" s!"kind={kind} R={rt} poll={poll} D={dOp} bound={bound} ages={acc.ages.reverse} unlockAt={unlockAt}"
